@@ -623,6 +623,98 @@ def _live_subcases(case):
     return stat, status, threads
 
 
+# ------------------------------------------------------------------ wave 8: handles, copies, PROCFS_PATH
+COPY_ACCS = ["name", "ppid", "status", "cpu_times", "cpu_num", "terminal", "num_threads", "num_ctx_switches", "uids", "gids",
+             "threads"]
+_ST_NAMES = {"S": "sleeping", "R": "running", "T": "stopped", "D": "disk-sleep"}
+
+
+def _tty_candidates():
+    import glob
+    out = {}
+    for pth in glob.glob("/dev/tty*") + glob.glob("/dev/pts/*"):
+        try:
+            out[os.stat(pth).st_rdev] = pth
+        except OSError:
+            pass
+    return out
+
+
+def _copy_records(case):
+    """What mount A publishes first (1), later (2), and what mount B publishes for the SAME pid number (3): everything differs
+    except the start time (the same identity for the front end's PID-reuse guard, which consults the current mount)."""
+    pid = case["pid"]
+    tmap = _tty_candidates()
+    ttyB = sorted(tmap)[0] if tmap else 0
+    return {
+        1: {"comm": b"in A) (1", "state": b"S", "ppid": 77, "tty_nr": 0, "utime": 1234, "stime": 77, "cutime": 5, "cstime": 6,
+            "processor": 3, "blkio": 9, "num_threads": 2, "uids": (1000, 1001, 1002, 1003), "gids": (50, 51, 52, 53),
+            "vol": 11, "nonvol": 12, "tids": [(pid, 10, 20), (pid + 1, 30, 40)]},
+        2: {"comm": b"in A) (2", "state": b"T", "ppid": 1, "tty_nr": 0, "utime": 99999, "stime": 4242, "cutime": 7, "cstime": 8,
+            "processor": 0, "blkio": 10, "num_threads": 3, "uids": (1, 2, 3, 4), "gids": (5, 6, 7, 8),
+            "vol": 1100, "nonvol": 1200, "tids": [(pid, 11, 21), (pid + 1, 31, 41), (pid + 2, 1, 2)]},
+        3: {"comm": b"other in B", "state": b"D", "ppid": 2, "tty_nr": ttyB, "utime": 8, "stime": 9, "cutime": 1, "cstime": 2,
+            "processor": 127, "blkio": 1, "num_threads": 1, "uids": (0, 0, 0, 0), "gids": (0, 0, 0, 0),
+            "vol": 3, "nonvol": 4, "tids": [(pid, 8, 9)]},
+    }
+
+
+def _copy_expected(case, acc, idx):
+    r = _copy_records(case)[idx]
+    clk = case["clk"]
+    F = lambda x: _F(float(x) / clk)  # noqa  (the division psutil is documented to do: ticks / tick rate)
+    if acc == "name":
+        return B(r["comm"])
+    if acc == "ppid":
+        return r["ppid"]
+    if acc == "status":
+        return B(_ST_NAMES[r["state"].decode()].encode())
+    if acc == "cpu_times":
+        return [F(r["utime"]), F(r["stime"]), F(r["cutime"]), F(r["cstime"]), F(r["blkio"])]
+    if acc == "cpu_num":
+        return r["processor"]
+    if acc == "terminal":
+        t = _tty_candidates().get(r["tty_nr"])
+        return None if t is None else B(t.encode())
+    if acc == "num_threads":
+        return r["num_threads"]
+    if acc == "num_ctx_switches":
+        return [r["vol"], r["nonvol"]]
+    if acc == "uids":
+        return list(r["uids"][:3])
+    if acc == "gids":
+        return list(r["gids"][:3])
+    if acc == "threads":
+        return sorted([t, F(u), F(s)] for t, u, s in r["tids"])
+    raise ValueError(acc)
+
+
+def _copy_cases(rng):
+    """SYSTEMATIC (never sampled): every anchored accessor x {copy, copy inside oneshot, deepcopy} x {PROCFS_PATH unchanged,
+    switched to a mount where the same pid number is another process, switched to a mount without that pid}."""
+    out = []
+    for cp in ("copy", "copy_in", "deepcopy"):
+        for sw in ("same", "b_other", "b_absent"):
+            ops = [["new", PID]]
+            if sw != "same":
+                ops.append(["path", 1])
+            ops += [[cp, 0], ["call", 1], ["call", 0], ["kernel", 0, PID, 2], ["call", 1], ["call", 0]]
+            out.append({"kind": "copy_hist", "cls": "copy-%s-%s" % (cp, sw), "pid": PID, "copy": cp, "switch": sw,
+                        "accs": list(COPY_ACCS), "clk": rng.choice(CLKS), "ops": ops,
+                        "ents": [[0, PID, 1]] + ([[1, PID, 3]] if sw == "b_other" else []), "expect_spec": True})
+    return out
+
+
+def _copy_ops_for(case, acc):
+    """ppid() goes through the front end's PID-reuse guard (is_running() builds Process(pid) on the CURRENT mount and
+    remembers 'gone' on the object - C01's territory): where the current mount lacks the pid only the first call of each
+    object is observed."""
+    ops = case["ops"]
+    if acc == "ppid" and case["switch"] == "b_absent":
+        return ops[:[o[0] for o in ops].index("kernel")]
+    return ops
+
+
 def gen_cases(rng, tier):
     n = {"quick": 1, "thorough": 10, "search": 2}[tier]
     cases = []
@@ -633,7 +725,8 @@ def gen_cases(rng, tier):
         c = _stat_case(rng, comm=b"st)ate (x", cls="stat-letter")
         c["state"] = st.hex()
         cases.append(c)
-    for _ in range(160 * n):
+    cases += _copy_cases(rng)      # wave 8: systematic block, part of every tier
+    for _ in range(150 * n):
         cases.append(_stat_case(rng))
     for _ in range(120 * n):
         cases.append(_status_case(rng))
@@ -776,6 +869,18 @@ def coq_term(case):
         ts = ["(Build_kthread %s %s false)" % (G.by(str(t["tid"])), rec(t["tid"], t["comm"], t["after"])) for t in case["tasks"]]
         t_threads = "run_threads %s %s true %s" % (_pos(case["clk"]), G.lst(ts), own)
         return "JL [%s; %s; %s]" % (t_stat, t_status, t_threads)
+    if k == "copy_hist":
+        def op(o):
+            if o[0] == "new":
+                return "(ONew Z %s)" % G.z(o[1])
+            if o[0] == "path":
+                return "(OSetPath Z %s)" % G.z(o[1])
+            if o[0] == "kernel":
+                return "(OKernel Z %s %s %s)" % (G.z(o[1]), G.z(o[2]), "None" if o[3] is None else "(Some %s)" % G.z(o[3]))
+            return "(%s Z %s)" % ({"copy": "OCopy", "copy_in": "OCopyIn", "deepcopy": "ODeepCopy", "call": "OCall"}[o[0]],
+                                  G.nat(o[1]))
+        return "run_copy_hist %s %s" % (G.lst(["(%s, %s, %s)" % tuple(G.z(x) for x in e) for e in case["ents"]]),
+                                        G.lst([op(o) for o in case["ops"]]))
     if k == "name_hist":
         xs = []
         for st in case["steps"]:
@@ -879,6 +984,8 @@ def coq_struct(case, raw):
             raise LiveMismatch("live child %s: a record of the running kernel is outside the domain of the specification "
                                "(wf false or a component not applicable): %r" % (case["label"], [p["spec"] for p in parts]))
         return {"parts": parts, "model": [p["model"] for p in parts], "spec": [p["spec"] for p in parts]}
+    if k == "copy_hist":
+        return {"model": raw[0], "spec": raw[1], "spec_deep": raw[2]}
     if k == "stat":
         return {"printed": raw[0], "procstat": raw[1], "model": raw[2], "spec": raw[3]}
     if k in ("status", "ppid_map", "stat_race", "name_enc", "name_hist"):
@@ -965,6 +1072,29 @@ def judge(case, coq, impl):
             return Verdict("violation", "psutil over the real /proc of child %s: %s differ(s) from what the kernel "
                                         "publishes" % (case["label"], ", ".join(bad)))
         return Verdict("ok")
+    if k == "copy_hist":
+        corr = None
+        for acc in case["accs"]:
+            got = impl[acc]
+            n = len(_copy_ops_for(case, acc))
+            delivered = any(isinstance(g, dict) and g.get("t") == "Handle" for g, o in zip(got, case["ops"]) if o[0] == "deepcopy")
+            want = (coq["spec_deep"] if delivered else spec)[:n]
+            for i, (g, w, m) in enumerate(zip(got, want, model[:n])):
+                o = case["ops"][i]
+                if w.get("t") == "Ans":
+                    exp = {"t": "Val", "a": [_copy_expected(case, acc, w["a"][0])]}
+                    if not _same(g, exp):
+                        return Verdict("violation", "%s() at step %d (%s on handle %d; copy kind %s, PROCFS_PATH %s): the answer is "
+                                       "not what the mount the ORIGINAL was created on publishes for this pid at that moment "
+                                       "(record %d)" % (acc, i, o[0], o[1], case["copy"], case["switch"], w["a"][0]))
+                elif g != w:
+                    return Verdict("violation", "%s history, step %d (%s): %r where the property demands %r"
+                                   % (acc, i, o[0], g, w))
+                if not delivered and m.get("t") != "Ans" and g != m and corr is None:
+                    corr = "%s history, step %d: implementation differs from the model" % (acc, i)
+            if delivered and corr is None:
+                corr = "copy.deepcopy(Process) is delivered; the model (RLock in __dict__) says TypeError"
+        return Verdict("corr", corr) if corr else Verdict("ok")
     if k == "name_hist":
         for i, (got, m, sp) in enumerate(zip(impl, model, spec)):
             if sp is not None and got != sp:
@@ -1105,6 +1235,99 @@ def _child(enc, flags=()):
     return ch
 
 
+def _copy_hist_run(case, coq, env, psutil, _pslinux, _psposix, fakeproc):
+    """The history once per accessor, fresh objects each time, over two fake mounts."""
+    import copy
+    import shutil
+    recs = _copy_records(case)
+    real_clk = _pslinux.CLOCK_TICKS
+    _pslinux.CLOCK_TICKS = case["clk"]
+    convs = {"name": B, "ppid": int, "status": B, "cpu_num": int, "num_threads": int,
+             "terminal": lambda r: None if r is None else B(r),
+             "cpu_times": lambda r: [_F(r.user), _F(r.system), _F(r.children_user), _F(r.children_system), _F(r.iowait)],
+             "num_ctx_switches": lambda r: [r.voluntary, r.involuntary],
+             "uids": lambda r: [r.real, r.effective, r.saved], "gids": lambda r: [r.real, r.effective, r.saved],
+             "threads": lambda rows: sorted([r.id, _F(r.user_time), _F(r.system_time)] for r in rows)}
+    roots = {t: os.path.join(env["work"], "mount%d" % t) for t in (0, 1)}
+
+    def publish(fp, pid, idx):
+        fp.remove(pid)
+        if idx is None:
+            return
+        r = recs[idx]
+        fp.add(pid, comm=r["comm"], state=r["state"], ppid=r["ppid"], starttime=5000, tty_nr=r["tty_nr"], utime=r["utime"],
+               stime=r["stime"], cutime=r["cutime"], cstime=r["cstime"], processor=r["processor"], blkio=r["blkio"],
+               num_threads=r["num_threads"])
+        fp.write(pid, "status", fakeproc.status_text(pid, r["comm"], ppid=r["ppid"], uids=r["uids"], gids=r["gids"],
+                                                     threads=r["num_threads"], vol=r["vol"], nonvol=r["nonvol"]))
+        shutil.rmtree(os.path.join(fp.pdir(pid), "task"))
+        for tid, u, s_ in r["tids"]:
+            fp.write(pid, "task/%d/stat" % tid, fakeproc.stat_line(tid, r["comm"], utime=u, stime=s_))
+    out = {}
+    try:
+        for acc in case["accs"]:
+            fps = {t: fakeproc.FakeProc(roots[t]) for t in roots}
+            for t, pid, idx in case["ents"]:
+                publish(fps[t], pid, idx)
+            fakeproc.attach(psutil, roots[0])
+            _psposix.get_terminal_map.cache_clear()
+            hs, res = [], []
+            for o in _copy_ops_for(case, acc):
+                if o[0] == "path":
+                    psutil.PROCFS_PATH = roots[o[1]]
+                    res.append(T("Unit"))
+                elif o[0] == "kernel":
+                    publish(fps[o[1]], o[2], o[3])
+                    res.append(T("Unit"))
+                elif o[0] == "new":
+                    try:
+                        hs.append(psutil.Process(o[1]))
+                        res.append(T("Handle", len(hs) - 1))
+                    except psutil.NoSuchProcess:
+                        res.append(T("NoSuchProcess"))
+                elif o[0] in ("copy", "copy_in", "deepcopy"):
+                    if o[1] >= len(hs):
+                        res.append(T("Bad"))
+                        continue
+                    p = hs[o[1]]
+                    try:
+                        if o[0] == "copy":
+                            q = copy.copy(p)
+                        elif o[0] == "deepcopy":
+                            q = copy.deepcopy(p)
+                        else:
+                            with p.oneshot():
+                                try:
+                                    # (ppid's guard would mark p 'gone' on a mount without the pid: C01's territory)
+                                    if not (acc == "ppid" and case["switch"] == "b_absent"):
+                                        getattr(p, acc)()
+                                except psutil.Error:
+                                    pass
+                                q = copy.copy(p)
+                    except TypeError:
+                        res.append(T("TypeError"))
+                        continue
+                    if not (q == p and hash(q) == hash(p) and q.pid == p.pid and q.create_time() == p.create_time()
+                            and q is not p):
+                        res.append(T("CopyNotEqual"))
+                        continue
+                    hs.append(q)
+                    res.append(T("Handle", len(hs) - 1))
+                else:
+                    if o[1] >= len(hs):
+                        res.append(T("Bad"))
+                        continue
+                    r = outcome(getattr(hs[o[1]], acc), convs[acc])
+                    if r.get("t") == "Exc" and r["a"] and r["a"][0].get("t") == "NoSuchProcess":
+                        r = T("NoSuchProcess")
+                    res.append(r)
+            out[acc] = res
+        return out
+    finally:
+        _pslinux.CLOCK_TICKS = real_clk
+        _psposix.get_terminal_map.cache_clear()
+
+
 def _impl_run(case, coq, env):
     import builtins
     import shutil
@@ -1114,6 +1337,8 @@ def _impl_run(case, coq, env):
     k = case["kind"]
     if k == "live":      # the real kernel's bytes through the fake tree, one sub-run per file
         return [_impl_run(sub, q, env) for sub, q in zip(_live_subcases(case), coq["parts"])]
+    if k == "copy_hist":
+        return _copy_hist_run(case, coq, env, psutil, _pslinux, _psposix, fakeproc)
     root = os.path.join(env["work"], "proc")
     fp = fakeproc.FakeProc(root, btime=case.get("btime", 1500000000))
     fakeproc.attach(psutil, root)
